@@ -12,100 +12,138 @@ Definition show_fres (r : fres) : string :=
   end.
 Definition check (rs : list rune) : string := digest (show_fres (format_res rs)).
 Definition full (rs : list rune) : string := show_fres (format_res rs).
-Eval vm_compute in ("<<<M1743>>>" ++ check (runes_of_ascii "// top
-options {
-    // c1
-    FixedStringPadFromLeft = true;
-    // c5
-    FixedStringPadChar = '0';
-    // c9
-}// c10
-
-packet Leg {
-    // c13
-    repeat InSym93 {
-        // c16
-        zchar[3] Acct,
-        // c21
-        string Side2,// c24
-        i32 Flags,
-        // c27
-        f32 Note,// c30a
-        // c30b
-        i32 msgKind,
-    },
-    // c35
-    f64 Note,// c38
-    uint16 Px,// c41a
-    // c41b
-}
-
-// c42
-packet Quote {
-    // c45a
-    // c45b
-    zchar[2] OrderId,
-}// c51
-
-packet Ack {
-    // c54a
-    // c54b
-    repeat string lastPx,
-    // c58
-    zchar[4] price,
-    uint32 OrderId,// c66
-    Quote,
-    // c68
-    int8 Acct,
+Eval vm_compute in ("<<<M1343>>>" ++ check (runes_of_ascii "// top
+options
+    // c0
+{ // c1a
+  // c1b
+LittleEndian
+    // c2
+= // c3a
+  // c3b
+false
+    // c4
+; ArrayPrefixLenType = // c7a
+  // c7b
+u8
+    // c8
+; // c9
+FixedStringPadFromLeft // c10a
+  // c10b
+= // c11
+true ; // c13
+FixedStringPadChar
+    // c14
+= '0' // c16
+;
+    // c17
+} // c18
+packet
+    // c19
+Heartbeat {
+    // c21
+string lastPx , uint8 // c25
+Qty ,
+    // c27
+i64 // c28a
+  // c28b
+Acct
+    // c29
+,
+    // c30
+char[ // c31
+4 ] // c33
+Ref // c34
+, // c35
+} packet // c37
+Fill // c38
+{ // c39
+uint8 // c40a
+  // c40b
+Ref // c41
+, Heartbeat // c43
+, // c44a
+  // c44b
+f32 // c45
+OrderId , // c47
+repeat f32 // c49
+x
+    // c50
+, // c51a
+  // c51b
+} root packet Order
+    // c55
+{ // c56a
+  // c56b
+zchar[
+    // c57
+2 // c58
+] // c59a
+  // c59b
+OrderId ,
+    // c61
+zchar[ // c62a
+  // c62b
+2 ]
+    // c64
+Acct
+    // c65
+,
+    // c66
+zchar[ // c67
+1 ] // c69
+Note // c70a
+  // c70b
+,
     // c71
-}
-
-packet Fill {
-    // c75
-    repeat Leg,// c78a
-    // c78b
-    @rightPad('0')
-    // c82
-    char[11] Note,// c87a
-    // c87b
-    f64 Px,
-    // c90
-    @rightPad('\x00')
-    // c94a
-    // c94b
-    char[5] Flags,
-    zchar[9] x,// c104a
-    // c104b
-    string msgKind,
-}// c108
-
-root packet Order {
-    // c112
-    Leg,// c114a
-    // c114b
-    repeat Ack,
-    @rightPad('\x00')
-    char[3] Side2,// c126
-    repeat char[1] seqNo,// c132
-    u16 clOrdID,// c135a
-    // c135b
-    match clOrdID as Body {
-        // c140
-        198 : Leg,
-        // c144a
-        // c144b
-        23 : Quote,
-        // c148
-        13 : Ack,
-        // c152
-        159 : Fill,
-        // c156
-    },
-    u32 venue @calculatedFrom(""CRC32""),
-    // c164
-}// c165a
-// c165b")).
-Eval vm_compute in ("<<<M1817>>>" ++ check (runes_of_ascii "packet o 
+zchar[
+    // c72
+9 // c73
+] Qty // c75a
+  // c75b
+, // c76a
+  // c76b
+string price // c78
+, // c79
+string // c80a
+  // c80b
+tag7
+    // c81
+, // c82a
+  // c82b
+u32
+    // c83
+x
+    // c84
+, // c85a
+  // c85b
+match // c86
+x as // c88
+Body // c89
+{ // c90
+123 // c91
+: // c92a
+  // c92b
+Fill , // c94a
+  // c94b
+112 // c95a
+  // c95b
+: // c96a
+  // c96b
+Heartbeat , // c98
+} // c99
+, // c100
+u32 seqNo
+    // c102
+@calculatedFrom( // c103
+""CRC32"" // c104
+)
+    // c105
+,
+    // c106
+} // c107
+")).
+Eval vm_compute in ("<<<M1818>>>" ++ check (runes_of_ascii "packet o 
 // trailing space 
 //x
 		{  repeat
@@ -210,51 +248,51 @@ trueish `
 	o`{ , }`  ,	}
 
 ")).
-Eval vm_compute in ("<<<M1478>>>" ++ check (runes_of_ascii "root packet repeatCount {
-    @lengthOf(u8x)
-    @calculatedFrom(""1"")
-    @tag(007)
-    repeat zchar[42] Header `" ++ [28040; 24687; 31867; 22411]%N ++ runes_of_ascii "`,
-    match options1 as asx {
-        255 : roots,
-    },// a // b
-    Header @lengthOf(options1) ``,
-    Header @lengthOf(len) `{ , }`,
-    o matchKey `u8 x,`,
-}
-
-packet packetx {
-    zchar[255] crc,
-}
-
-packet Logon {
-    body {
-        float {
-            repeat Logon trueish,
+Eval vm_compute in ("<<<M1461>>>" ++ check (runes_of_ascii "packet falsey {
+    i64_,
+    charz {
+        match Packet as Pad {
+            ""\n"" : Packet,
+            ""// no comment"" : f32a,
+            [3, 4294967296, 10, 7, 10] : u,
+            // trailing space 
+            ""`tick`"" : u8x,
+            [7, ""it's""] : Packet,
+            0 : len,
         },
+    },/// triple
+    @lengthOf(f32a)
+    char[3] options1 @lengthOf(Pad),
+    zchar[0123456789] T ``,
+}
+
+packet Pad {
+    // c
+    o roots `{ , }`,
+}
+
+packet f32a {
+    _x @calculatedFrom(""x y""),
+    @tag(65535)
+    //	t
+    char pack @lengthOf(zchar),
+    repeat int64 falsey,
+    repeat len {
+        match A as rootA {
+            [42, ""\n""] : Z9_,
+        },
+        repeat i16 A,
+        repeat zchar[65535] tag `
+                `,
+        f64 float @lengthOf(f32a) ``,
+        // `tick` ""quote"" 'q'
+        // packet A { u8 x, }
     },
-    @calculatedFrom(""`tick`"")
-    repeat char[0] f32a,
-    match body as float {
-        [65535, """ ++ [28040; 24687]%N ++ runes_of_ascii """] : calculatedFrom,
-    },
-    u32 float @calculatedFrom(""" ++ [233]%N ++ runes_of_ascii "t" ++ [233]%N ++ runes_of_ascii """),
-    string body @lengthOf(len) `
-        `,
-    u8x @calculatedFrom(""a\""b""),//	t
-    float64 options1 @calculatedFrom(""" ++ [128512]%N ++ runes_of_ascii """) `it's`,
-    //x
-    // trailing space 
-    match crc as chars {
-        3 : options1,
-        [10] : _x,
-        [""{,}""] : options1,
-        [
-            ""CRC32"", ""a\\"", ""a\\"",
-            ""packet"", 7
-        ] : As,
-    },
-    i16 msg_type,
+    x u8x,
+    @tag(42)
+    repeat As Packet,
+    @lengthOf(Pad)
+    repeat f64 rootA,// @lengthOf(
 }")).
 Eval vm_compute in ("<<<M1123>>>" ++ check (runes_of_ascii "// top
 options
@@ -364,203 +402,268 @@ msg_type
 }
     // c52
 ")).
-Eval vm_compute in ("<<<M330>>>" ++ check (runes_of_ascii "root packet
-As {
-} MetaData Pad { string
-    metadata  `// not a comment` ,
-    }
-packet metadata
-    { string	charz
-`a\` , @leftPad ( ' ' )pack@lengthOf(x_y_z ), @calculatedFrom( ""packet"")
-match crc
-    as chars { [ ""packet"" ,7 ]
-    :  repeatCount }
-, Pad @lengthOf( matchKey
-    ),
-@calculatedFrom( ""\n""
-    )int64
-    Z9_ @lengthOf(
-    // a // b
-    _x ),
-@lengthOf(repeatCount// trailing space 
-) repeat float
-{ u128 @lengthOf( zchar) , u8 crc
-, } ,
-    int64 pack, u128
-    `it's` , repeat
-// a // b
-// `tick` ""quote"" 'q'
-i32 T , //	t
-@tag(00 ) rootA  @lengthOf(
-float
-    )
-,
-} MetaData Header // @lengthOf(
-{u32 u,	string A `crlf
-line` ,
-u16
-    roots `a\` ,int16 chars , }
-packet repeatCount { repeat char[
-// trailing space 
-//x
-65535]
-    x `line1
-line2`
-, }")).
-Eval vm_compute in ("<<<M4>>>" ++ check (runes_of_ascii "packet
+Eval vm_compute in ("<<<M230>>>" ++ check (runes_of_ascii "packet rootA{	match
+zchar as
     // " ++ [128512]%N ++ runes_of_ascii " emoji
-    u128
-{ repeat char[
-// trailing space 
+    int {
+    [ ""it's""
+, ""1""]
+    :// c
+tag ,
+    } , char Packet @lengthOf( body ) , metadata @lengthOf( packetx ) ,@calculatedFrom( """ ++ [128512]%N ++ runes_of_ascii """	)match
+    repeatCount as f32a { """ ++ [28040; 24687]%N ++ runes_of_ascii """
+    :chars ,
+    }
+    ,@lengthOf(string_ )char[ 0
+    //
+    ] len @calculatedFrom(
+""abc"" )
+,
+    // `tick` ""quote"" 'q'
+    u8 uint8x@lengthOf( roots)  `say ""hi""`
+, int @calculatedFrom( ""a\""b"") ,match
+msg_type as i8i8 {// c
+""\" ++ [233]%N ++ runes_of_ascii """
+// " ++ [27880; 37322]%N ++ runes_of_ascii "
 // packet A { u8 x, }
-65535 ] float ,
-}
-options  { f32a
-= char[] ; } packet// trailing space 
-_x { @rightPad ('0' ) // packet A { u8 x, }
-@lengthOf(i8i8) @lengthOf(lengthOf
-)  repeat	Z9_//x
-`crlf
-line`, string_ {
-// `tick` ""quote"" 'q'
-// c
-zchar[7
-]x_y_z , Header x
-`line1
-line2` ,
-    }, //	t
-@leftPad ( )
-    match float
-as	x_y_z
-{ """ ++ [28040; 24687]%N ++ runes_of_ascii """ : metadata, 007 :
-    A,00 : falsey
-    , 0123456789  : Foo // trailing space 
-,0123456789
+: Header , 1 : zchar,
+    [ ""\n""	]
+:	string_
+""\n"" :i8i8 0123456789 : Logon
+    [ 00 , 007 ,""1"" ,
+    //	t
+    ""it's""
+    , ""// no comment""
+    ,
+    0
+, ""a\\"" ,// packet A { u8 x, }
+007 ]
+    :BodyLength}
+, match rootA as // c
+chars  {
+7
 :
-    zchar
-, } ,@calculatedFrom( ""1"" )
-@tag(
-/// triple
-/// triple
-0	) char[
-00 ] options1	, } packet Pad{
+    // @lengthOf(
+    Header }
+, A Foo `tab	here` ,
+}
+")).
+Eval vm_compute in ("<<<M192>>>" ++ check (runes_of_ascii "// trailing space 
+options { f32a=
+false;	stringy=	true
+;
+u=  ""\" ++ [233]%N ++ runes_of_ascii """  ;
+    stringy = false;
+} packet options1 // " ++ [27880; 37322]%N ++ runes_of_ascii "
+{
+} MetaData
+packetx { f32 uint8x  ,  } root packet zchar {
+@tag( 4294967296
+) @lengthOf(a1
+)
+i8
+_x
+`it's` ,//x
+char[]	o , body
+    ,
+zchar[ 65535] msg_type
+`crlf
+line` , repeat
+    BodyLength{ repeat char[ 65535
+    ] stringy,
+},
+@calculatedFrom( """ ++ [128512]%N ++ runes_of_ascii """
+) @tag( 10
+    // a // b
+    ) repeat f32
+lengthOf`line1
+line2` , repeat  u {
+    uint32 Z9_, //
+repeat body
+`
+` , }  , @tag( 4294967296
+) i64_ @lengthOf( tag
+    // packet A { u8 x, }
+    ), @lengthOf(//	t
+float) @lengthOf(
+    // " ++ [128512]%N ++ runes_of_ascii " emoji
+    packetx	) @calculatedFrom( """ ++ [128512]%N ++ runes_of_ascii """
+)	repeat x_y_z u  ,@tag( 65535 )u8
+A	,} //")).
+Eval vm_compute in ("<<<M227>>>" ++ check (runes_of_ascii "packet	crc
+    { @lengthOf(Header )	repeat roots
+    // @lengthOf(
+    `a\` ,
+@lengthOf( tag ) match x as string_{ [ ""a\\"" , ""packet""
+] : Header""// no comment""
+    /// triple
+    :
+Logon , 7:
+falsey ,7  : metadata [ 7  , 00] :
+    // `tick` ""quote"" 'q'
+    repeatCount 3 : u ,
+},
+    //	t
+    @lengthOf( u128
+//
+// " ++ [27880; 37322]%N ++ runes_of_ascii "
+) @rightPad
+(
+'\x00' // c
+)
+char[] int ,int16 Packet @lengthOf(  string_
+    ) , trueish{ repeat
+crc {zchar
+calculatedFrom , } ,
+} ,
+// @lengthOf(
+//x
+@rightPad
+( ) repeat
+    _x pack // " ++ [27880; 37322]%N ++ runes_of_ascii "
+, @lengthOf(
+// c
+// trailing space 
+chars)repeat
+    string_ {repeat
+    uint8x`// not a comment`,}
+, }")).
+Eval vm_compute in ("<<<M1570>>>" ++ check (runes_of_ascii "
+options{ 
+StringPrefixLenType
+
+    =
+u8; ArrayPrefixLenType =
+
+    u8
+;	FixedStringPadFromLeft  =
+false 
+;
+FixedStringPadChar 
+=
+' ' 
+;
+} packet
+	Ack
+{
+	char[]	tag7
+,	}
+
+packet	Reject
+	{InSym61  {repeat
+    Ack,
+
+    zchar[
+
+    4 ]f1	,
+},} packet
+
+Logout
+	{
+
+char[4 
+]clOrdID
+	,
+} 
+root
+	packet
+Cancel { 
+@leftPad	(
+' ' ) char[
+	10  ]price , u8
+	x
+
+, u32
+venue@lengthOf( 
+Body )
+,
+    match x
+    as
+	Body  {
+[92	,	175
+
+    ]
+:  Logout
+	,
+    26
+
+    :
+Reject  , 144 
+: Ack
+,  }
+
+, 
 u16
-body
-@lengthOf( stringy // c
-), } options { BodyLength ='0'msg_type =""a\""b"" ; }
+
+    count	@calculatedFrom(	""CRC32"" )
+
+    ,  }
 
 ")).
-Eval vm_compute in ("<<<M78>>>" ++ check (runes_of_ascii "options {
-Header	=u32; } options {
-i8i8	=
-    f64 ; body
-    =  zchar[
-// " ++ [128512]%N ++ runes_of_ascii " emoji
-/// triple
-00//
-] ; }
-    //
-    MetaData BodyLength  { // trailing space 
-}// " ++ [27880; 37322]%N ++ runes_of_ascii "
-options
-{ Logon= u64 As =
-    true i64_
-= '\x00' ;
-} root packet asx {
-@tag(
-// `tick` ""quote"" 'q'
-//	t
-4294967296
-    )
-    roots @lengthOf( A ) ,repeat uint8 u128
-    , int32 i64_  ,
-    u8 u `` ,
-@lengthOf(
-// c
-// c
-len ) uint64
-    //x
-    matchKey ,	match rootA
-    as stringy {
-1 : string_, 7 : charz , 255 : u128, [ // trailing space 
-0
-,0123456789 ,1,007  ]: len
-    , 10
-    :trueish } ,
-@rightPad	()
-    char[ 7] int //
-@lengthOf(
-x ) `two words`
-, }")).
-Eval vm_compute in ("<<<M1696>>>" ++ check (runes_of_ascii "options
+Eval vm_compute in ("<<<M1655>>>" ++ check (runes_of_ascii "options
 
-{
-
-As=	// trailing space 
-    zchar[4294967296 ]
-;
-
-}	//	t
-	packet
-
-len// packet A { u8 x, }
-{	@lengthOf( _x)	match
-    // c
-	  lengthOf as 
-  //
-// `tick` ""quote"" 'q'
-      string_ 	 // c
-    	{  [ 4294967296 ] :i64_  ""a	b"" 
-: o
-
-    ,  },leftPad @calculatedFrom( ""`tick`"") 
-        // trailing space 
-		// `tick` ""quote"" 'q'
-  ,
-    @leftPad(	'\x00'	)repeat
-    charz	/// triple
-    msg_type
-
-, repeat i8
-Foo
-, }
-
-packet  msg_type
     { 
+LittleEndian
 
-    //x
-  // @lengthOf(
-@leftPad(
-'0' )  u64  repeatCount
-@calculatedFrom(
-    """ ++ [28040; 24687]%N ++ runes_of_ascii """) 
-,  // packet A { u8 x, }
+    =true
+    ; StringPrefixLenType  =	u64	;
+ArrayPrefixLenType=
+    u16 ;FixedStringPadFromLeft 
+=
+false
+;FixedStringPadChar
+=	' ' 
+; } packet 
+Logon
+
+{ zchar[
+
+5
+
+    ]
+Side2 ,
+    }
+
+    root
+    packet
+	Logout { repeat
+
+i64 
+Tail 
+,
+	Logon 
+,
+
+repeat
+
+i16 OrderId
+    ,
+	char[]
+venue
+,
+    uint64
+
+x ,
+repeat i16
+
+    count
+
+    , u8
+	Flags	,
+
+    match 
+Flags	as
+    Body
+
+    { 25 :
+    Logon ,
+} ,
+u16
+    Qty@calculatedFrom(	""CR\
+C32""
+    ) ,
+
 } ")).
-Eval vm_compute in ("<<<M1392>>>" ++ check (runes_of_ascii "packet Logon {
-    repeatCount {
-        BodyLength `crlf
-                line`,
-    },
-    zchar a1 `u8 x,`,
-    match Foo as Foo {
-        ""\n"" : i8i8,
-        [
-            ""abc"",
-            ""CRC32""
-        ] : crc,
-        [
-            3, ""x y"", 42, ""`tick`"", 1,
-            ""a\""b"", ""CRC32"", 255
-        ] : repeatCount,
-        [
-            1, 007, ""\n"", 007, 7,
-            ""// no comment"", 255
-        ] : uint8x,
-        00 : f32a,
-    },
-    // a // b
-    uint16 Pad @lengthOf(uint8x) `doc`,
-}")).
 Eval vm_compute in ("<<<M264>>>" ++ check (runes_of_ascii "options  {
     float
 =
@@ -590,256 +693,181 @@ as int
     ,3 :
     u8x , 0123456789:T} ,
     len@lengthOf(leftPad )`u8 x,` , } // @lengthOf(")).
-Eval vm_compute in ("<<<M1550>>>" ++ check (runes_of_ascii "
-
-  packet  As
-
-{ 
-@leftPad() 
-char[
-0	]Logon
-,char[
-    0
-
-]
-	Z9_
-@calculatedFrom(
-	""abc""
-        // c
-    )
-,@tag(
-4294967296
-) i64
-    matchKey @calculatedFrom(
-""// no comment""//
-      )
-
-    `two words` 
-,
-
-i16
-    A
-,}  // " ++ [27880; 37322]%N ++ runes_of_ascii "
-
-  packet
-
-T
-	{ zchar[3 ] 
-tag	// packet A { u8 x, }
-  @lengthOf(
-chars )  , }packet  // " ++ [128512]%N ++ runes_of_ascii " emoji
-BodyLength
-{
-    calculatedFrom
-    @lengthOf( body
+Eval vm_compute in ("<<<M349>>>" ++ check (runes_of_ascii "root
+packet body {
+    @lengthOf(
+int
+// @lengthOf(
+//x
+)string tag
+    ,	Pad BodyLength , Z9_ {
+    /// triple
+    u `` , zchar[ 7] u ,
+},uint64 calculatedFrom, }packet
+msg_type {match f32a// " ++ [128512]%N ++ runes_of_ascii " emoji
+as pack
+    { ""// no comment"" : trueish
+, }
+    // trailing space 
+    , @calculatedFrom( // @lengthOf(
+""abc""
 )
-	`
-`	,} // a // b
+    @leftPad (
+' ') @calculatedFrom( """" //x
+) // c
+matchKey T ,// `tick` ""quote"" 'q'
+}
 ")).
-Eval vm_compute in ("<<<M114>>>" ++ check (runes_of_ascii "packet
-a1 {@calculatedFrom(""`tick`"" ) uint32 charz	`crlf
-line` ,
-// c
+Eval vm_compute in ("<<<M1661>>>" ++ check (runes_of_ascii "// top
+root packet _x {
+    // c3
+    match Foo as Z9_ {
+        // c8
+        ""a	b"" : Pad,
+        // c12
+    },// c14
+    repeat x `line1
+        line2`,// c18
+    @rightPad(' ')
+    // c22
+    @calculatedFrom(""a\\"")
+    // c25
+    metadata MetaDataX,// c28
+    @tag(0)
+    // c31
+    Logon int ``,// c35
+}// c36
+
+options {
+    // c38
+    T = '\x00'// c41
+}// c42")).
+Eval vm_compute in ("<<<M109>>>" ++ check (runes_of_ascii "MetaData Header{ } packet crc {	match zchar as leftPad // `tick` ""quote"" 'q'
+{ 7 : As 0 : Packet , [
+00 // " ++ [128512]%N ++ runes_of_ascii " emoji
+]
+: Pad ,
 //x
-a1 `tab	here`, }
-    options
-    {
-// " ++ [27880; 37322]%N ++ runes_of_ascii "
-// " ++ [128512]%N ++ runes_of_ascii " emoji
-stringy =
-// c
-// a // b
-255 ;
-    metadata =	4294967296 pack
-    = /// triple
-string	; crc= string
-    ; }  root  packet
-crc	{ @tag(  42  )
-@calculatedFrom( ""abc""  )
-@rightPad ( '0'
-) u128 u8x
-/// triple
 //x
-,@lengthOf(len) uint16 int, }
+""// no comment""
+    :
+    calculatedFrom
+,	3
+    :
+string_ , } ,falsey  packetx `crlf
+line` , // " ++ [27880; 37322]%N ++ runes_of_ascii "
+@tag( 42 )repeat
+u64 packetx,
+@calculatedFrom(  ""1"" ) repeat u16 calculatedFrom, }
 ")).
-Eval vm_compute in ("<<<M1856>>>" ++ check (runes_of_ascii "options {
+Eval vm_compute in ("<<<M35>>>" ++ check (runes_of_ascii "  packet Header
+{ @calculatedFrom( // a // b
+""a	b"" )
+char[
+    255] falsey `tab	here`,int8
+    // " ++ [27880; 37322]%N ++ runes_of_ascii "
+    u
+`doc` , float32 lengthOf
+    @calculatedFrom(
+""a	b""  )
+    // a // b
+    , @rightPad (
+' '  ) @tag( 3
+) float64 asx
+    ,
+int8 metadata @lengthOf(zchar )// a // b
+,Pad f32a , }")).
+Eval vm_compute in ("<<<M1379>>>" ++ check (runes_of_ascii "options {
     LittleEndian = true;
-    StringPrefixLenType = u16;
-    FixedStringPadChar = ' ';
 }
-
 packet Logon {
-    @leftPad('0')
-    char[10] tag7,
-}
-
-root packet Ack {
-    int32 Px,
-    uint16 count,
-    string Qty,
-    string OrderId,
-    string Flags,
     u8 x,
-    match x as Body {
-        [58, 169] : Logon,
-    },
-}")).
-Eval vm_compute in ("<<<M1310>>>" ++ check (runes_of_ascii "
-packet
-A
-	{
-
-u8 a
-	, } packet
-    B 
-{ u16 b
-,
-	} packet
-    C 
-{	u32 
-c,
-
+    string user,
 }
-	root
-    packet
+packet Logout {
+    u16 reason,
+}
+packet Empty {
+}
+root packet Frame {
+    u16 MsgType,
+    u8 BodyLen @lengthOf(Body),
+    u8 flags,
+    Logon Body,
+    u32 trailer,
+}
+")).
+Eval vm_compute in ("<<<M183>>>" ++ check (runes_of_ascii "root
+packet tag {
+@calculatedFrom(
+""{,}""
+    // `tick` ""quote"" 'q'
+    )
+@tag(
+//x
+// " ++ [27880; 37322]%N ++ runes_of_ascii "
+42
+    )
+    i64_ @lengthOf( calculatedFrom ) , zchar[// " ++ [128512]%N ++ runes_of_ascii " emoji
+3 // @lengthOf(
+] int  , } root// c
+packet Foo { }
+// @lengthOf(
+")).
+Eval vm_compute in ("<<<M1547>>>" ++ check (runes_of_ascii "packet _x {
+    repeat char[] matchKey,
+    @leftPad()
+    x_y_z T,
+    Pad {
+        zchar[1] rootA `tab	here`,
+    },
+    Foo @calculatedFrom(""""),
+}
 
-    M
-	{u16
+packet MetaDataX {
+    float64 body,
+}")).
+Eval vm_compute in ("<<<M1301>>>" ++ check (runes_of_ascii "
 
-    Kc ,
-u16 Kb
-	, u16
-    Ka
-
-,
-match  Kc
-
-    as
-X
-	{9
-:A
+  packet A
+{u8 a
 
     ,
-10
-:B  , } ,match	Kb  as
-Y{	2
-: C
-,  1 :A
+	} packet 
+B { u16
 
+    b , }root packet P
+
+    {u8 K
+    , match
+    K as M
+	{ [ 1
 ,
+	2 ]: 
+A
 
-} ,  match	Ka
-    as
-Z {
-1 :
-B	, 
-}, A 
-,B
-, C
-,
+    ,
 
-    }")).
-Eval vm_compute in ("<<<M1320>>>" ++ check (runes_of_ascii "packet P1 {
-    u8 a,
-}
-packet P2 {
-    P1,
-}
-packet P3 {
-    P2,
-    P1,
-}
-packet P4 {
-    repeat P3,
-    P2,
-}
-root packet P5 {
-    P4,
-    P3,
-    P1,
-    u8 K,
-    match K as Body {
-        4 : P4,
-        3 : P3,
-        2 : P2,
-        1 : P1,
-    },
-}
+3 :B
+    ,	7
+    : A,
+	}
+	,  }
+
 ")).
-Eval vm_compute in ("<<<M203>>>" ++ check (runes_of_ascii "root packet Pad {match //	t
-falsey as
-    A{
-255:// `tick` ""quote"" 'q'
-T, } , int64
-Header	`tab	here`
-, repeat i64_ `line1
-line2`, @tag( 7 )
-    float32	zchar
-    @calculatedFrom( ""\" ++ [233]%N ++ runes_of_ascii """
-    )
-//
-// @lengthOf(
-,u64 Header ,
+Eval vm_compute in ("<<<M250>>>" ++ check (runes_of_ascii "MetaData // a // b
+o {string Foo
+    , }
+MetaData  msg_type { Header len `" ++ [28040; 24687; 31867; 22411]%N ++ runes_of_ascii "`
+,
     }
-")).
-Eval vm_compute in ("<<<M1896>>>" ++ check (runes_of_ascii "MetaData falsey {
-    Header falsey `
-    `,
-    string Foo `" ++ [28040; 24687; 31867; 22411]%N ++ runes_of_ascii "`,
-    falsey repeatCount,
-    i8 u,
-}
-
-packet A {
-    match _x as T {
-        007 : lengthOf,
-        // `tick` ""quote"" 'q'
-    },
+options
+{ tag
+= '0' ;
+    o=
+""CRC32"" ; Logon = ""`tick`"" ;// a // b
 }")).
-Eval vm_compute in ("<<<M1281>>>" ++ check (runes_of_ascii "// top
-root // c0a
-  // c0b
-packet P {
-    // c3
-u16
-    // c4
-a
-    // c5
-,
-    // c6
-u32 // c7a
-  // c7b
-Sum // c8
-@calculatedFrom( // c9a
-  // c9b
-""CRC32"" ) , } // c13
-")).
-Eval vm_compute in ("<<<M1601>>>" ++ check (runes_of_ascii "packet A {
-    match k as n {
-        [
-            1, ""bb"", 007, ""d"", 5,
-            ""f"", 7, ""h"", 9, ""j"",
-            11
-        ] : B,
-        2 : C,
-    },
-}")).
-Eval vm_compute in ("<<<M55>>>" ++ check (runes_of_ascii "MetaData x_y_z
-//x
-//x
-{ int32
-    o
-,zchar[
-65535  ]Packet , i64_ o , i64 o`
-` , } options
-{ x =
-//x
-/// triple
-u8;
-// " ++ [27880; 37322]%N ++ runes_of_ascii "
-// a // b
-} // trailing space ")).
-Eval vm_compute in ("<<<M506>>>" ++ check (runes_of_ascii "packet uint8x
+Eval vm_compute in ("<<<M513>>>" ++ check (runes_of_ascii "packet uint8x
 { match pack
     as msg_type	{
     0123456789 :	float
@@ -848,305 +876,303 @@ Eval vm_compute in ("<<<M506>>>" ++ check (runes_of_ascii "packet uint8x
 } packet //	t
 a1
     { } options {packetx
-    = '\x00'	; ; u128= ""a	b""  ; }
+    = '\x00'	; float32= ""a	b""  ; }
 ")).
-Eval vm_compute in ("<<<M422>>>" ++ check (runes_of_ascii "packet uint8x
-{ match pack
-    as {	msg_type
-    0123456789 :	float
-}
-,
-} packet //	t
-a1
-    { } options {packetx
-    = '\x00'	; u128= ""a	b""  ; }
-")).
-Eval vm_compute in ("<<<M425>>>" ++ check (runes_of_ascii "packet uint8x
-{ match pack
-    as msg_type	
-    0123456789 :	float
-}
-,
-} packet //	t
-a1
-    { } options {packetx
-    = '\x00'	; u128= ""a	b""  ; }
-")).
-Eval vm_compute in ("<<<M1901>>>" ++ check (runes_of_ascii "  MetaData
-leftPad 
-{ 
-chars
-MetaDataX  , } packet
-
-repeatCount
-    { char[255
-    ] uint8x`" ++ [233]%N ++ runes_of_ascii "` 
-, }  MetaData pack 
-{
-	As
-    Foo	,} 
-
-    // c
- 
-")).
-Eval vm_compute in ("<<<M664>>>" ++ check (runes_of_ascii "// @lengthOf(
-packet i8i8 { u128 o , }
-options { MetaDataX = true;
-    BodyLength =""packet"" packet= 007
-crc //x
-= ""abc"" ;
-    msg_type =
-i16 }")).
-Eval vm_compute in ("<<<M699>>>" ++ check (runes_of_ascii "// @lengthOf(
-packet i8i8 { a" ++ [769]%N ++ runes_of_ascii "b o , }
-options { MetaDataX = true;
-    BodyLength =""packet"" x_y_z= 007
-crc //x
-= ""abc"" ;
-    msg_type =
-i16 }")).
-Eval vm_compute in ("<<<M519>>>" ++ check (runes_of_ascii "packet uint8x
-{ match pack
-    as msg_type	{
-    0123456789 :	float
-}
-,
-} packet //	t
-a1
-    { } options {packetx
-    = '\x00'	; u128")).
-Eval vm_compute in ("<<<M1733>>>" ++ check (runes_of_ascii "packet A {
-    match k as n {
-        [
-            1, ""bb"", 007, ""d"", 5,
-            ""f"", 7
-        ] : B,
-        2 : C,
-    },
-}")).
-Eval vm_compute in ("<<<M1261>>>" ++ check (runes_of_ascii "packet B {
+Eval vm_compute in ("<<<M1793>>>" ++ check (runes_of_ascii "packet A {
     u8 a,
 }
+
+packet B {
+    u16 b,
+}
+
 root packet P {
     u8 K,
-    u64 L @lengthOf(Body),
-    match K as Body {
-        1 : B,
+    match K as M {
+        [1, 2] : A,
+        3 : B,
+        7 : A,
     },
-}
-")).
-Eval vm_compute in ("<<<M1156>>>" ++ check (runes_of_ascii "MetaData leftPad { chars MetaDataX , }
-// c
-packet repeatCount { char[ 255 ] uint8x `" ++ [233]%N ++ runes_of_ascii "` , } MetaData pack { As Foo , }")).
-Eval vm_compute in ("<<<M1188>>>" ++ check (runes_of_ascii "MetaData leftPad { chars MetaDataX , } packet repeatCount { char[ 255 ] uint8x `" ++ [233]%N ++ runes_of_ascii "` , } MetaData pack { As Foo ,
-// c
 }")).
-Eval vm_compute in ("<<<M894>>>" ++ check (runes_of_ascii "packet A {
+Eval vm_compute in ("<<<M467>>>" ++ check (runes_of_ascii "packet uint8x
+{ match pack
+    as msg_type	{
+    0123456789 :	float
+}
+,
+} packet //	t
+{
+    a1 } options {packetx
+    = '\x00'	; u128= ""a	b""  ; }
+")).
+Eval vm_compute in ("<<<M515>>>" ++ check (runes_of_ascii "packet uint8x
+{ match pack
+    as msg_type	{
+    0123456789 :	float
+}
+,
+} packet //	t
+a1
+    { } options {packetx
+    = '\x00'	; u128 ""a	b""  ; }
+")).
+Eval vm_compute in ("<<<M398>>>" ++ check (runes_of_ascii "packet [
+{ match pack
+    as msg_type	{
+    0123456789 :	float
+}
+,
+} packet //	t
+a1
+    { } options {packetx
+    = '\x00'	; u128= ""a	b""  ; }
+")).
+Eval vm_compute in ("<<<M423>>>" ++ check (runes_of_ascii "packet uint8x
+{ match pack
+    as ,	{
+    0123456789 :	float
+}
+,
+} packet //	t
+a1
+    { } options {packetx
+    = '\x00'	; u128= ""a	b""  ; }
+")).
+Eval vm_compute in ("<<<M1855>>>" ++ check (runes_of_ascii "
+packet
+	uint8x  {
+match
+pack 
+as
+	msg_type
+{ 0123456789: float
+	}, }
+packet 	 //	t
+a1
+{	}options
+{
+	packetx	= 
+'\x00'
+	;
+u128 
+=	""a	b""  }
+")).
+Eval vm_compute in ("<<<M1783>>>" ++ check (runes_of_ascii "
+
+  packet A 
+{match
+
+k	as n {	[ 1  ,
+22	,
+007, 
+4 
+,5 ,	66	,
+
+7  , 
+8  , 9 ,
+
+10,
+
+    11 ,  12
+    ]:
+B
+
+    2 :C}  ,
+
+    }
+")).
+Eval vm_compute in ("<<<M259>>>" ++ check (runes_of_ascii "  MetaData repeatCount // c
+{char[
+42 // " ++ [27880; 37322]%N ++ runes_of_ascii "
+]
+    // " ++ [128512]%N ++ runes_of_ascii " emoji
+    MetaDataX ,
+    // @lengthOf(
+    zchar[
+// " ++ [27880; 37322]%N ++ runes_of_ascii "
+//x
+0] asx , }
+")).
+Eval vm_compute in ("<<<M1468>>>" ++ check (runes_of_ascii "MetaData msg_type {
+}
+
+root packet A {
+    repeat i32 leftPad `it's`,
+    //x
+}
+
+root packet a1 {
+    char[255] falsey,
+}")).
+Eval vm_compute in ("<<<M1162>>>" ++ check (runes_of_ascii "MetaData leftPad { chars MetaDataX , } packet repeatCount {
+// c
+char[ 255 ] uint8x `" ++ [233]%N ++ runes_of_ascii "` , } MetaData pack { As Foo , }")).
+Eval vm_compute in ("<<<M102>>>" ++ check (runes_of_ascii "packet
+    // " ++ [128512]%N ++ runes_of_ascii " emoji
+    body {match Logon  as _x
+    {
+4294967296
+// a // b
+//x
+:
+_x , """ ++ [28040; 24687]%N ++ runes_of_ascii """
+    : u128
+    ,} , }
+")).
+Eval vm_compute in ("<<<M1484>>>" ++ check (runes_of_ascii "packet
+
+    A
+{ match
+	k as n  {	[ ""a""
+    ,
+""bb""
+    ,
+	""c c""
+
+,
+
+""d""
+]
+
+    : B
+
+    2
+
+:
+	C 
+} , } ")).
+Eval vm_compute in ("<<<M931>>>" ++ check (runes_of_ascii "packet A {
+    u16 len @lengthOf(body) `
+`,
+    u32 crc @calculatedFrom(""CRC32"") `
+`,
+    string body,
+}")).
+Eval vm_compute in ("<<<M1248>>>" ++ check (runes_of_ascii "  options
+{LittleEndian 
+= true 
+; }
+
+    root  packet
+
+P {
+
+    repeat
+char
+cs
+
+, u8
+	x, }
+
+")).
+Eval vm_compute in ("<<<M199>>>" ++ check (runes_of_ascii "packet falsey { string a1 @lengthOf( packetx ) , }
+packet	int { Header	@lengthOf( stringy)
+, }")).
+Eval vm_compute in ("<<<M892>>>" ++ check (runes_of_ascii "packet A {
   match k as n {
-    [""a"", ""bb"", ""c c"", ""d"", ""e"", ""f"", ""g"", ""h"", ""i"", ""j"", ""k""] : B
+    [1, 22, 007, 4, 5, 66, 7, 8, 9, 10, 11] : B
     2 : C
   },
 }")).
-Eval vm_compute in ("<<<M1672>>>" ++ check (runes_of_ascii "packet A
-	{
-	match	k
-
-as n{[  ""a""  , ""bb"" ,
-	""c c""
-,
-""d""	,""e"",
-
-""f""
-,
-""g""
-] : 
-B
-
-,
-2 : C
-}
-,
-
-    }")).
-Eval vm_compute in ("<<<M1903>>>" ++ check (runes_of_ascii "
-root
-
-    packet
-SimpleMessage {uint16	MsgType
-	`" ++ [28040; 24687; 31867; 22411]%N ++ runes_of_ascii "`
-,string
-	JsonBody`Json" ++ [23383; 31526; 20018; 28040; 24687; 20307]%N ++ runes_of_ascii "`
-
-,
-
-    }")).
-Eval vm_compute in ("<<<M554>>>" ++ check (runes_of_ascii "
-packet packet
+Eval vm_compute in ("<<<M873>>>" ++ check (runes_of_ascii "packet A {
+  match k as n {
+    [1, 22, ""c c"", 4, 5, ""f"", 7, 8, ""i""] : B,
+    2 : C
+  },
+}")).
+Eval vm_compute in ("<<<M617>>>" ++ check (runes_of_ascii "
+packet
     asx {match u128 as lengthOf
 {
 //	t
 // `tick` ""quote"" 'q'
 255 : x ,
-    } ,	}")).
-Eval vm_compute in ("<<<M1838>>>" ++ check (runes_of_ascii "
-packet A{  Inner 
-{
+    } 	}")).
+Eval vm_compute in ("<<<M1275>>>" ++ check (runes_of_ascii "
 
-match
-k
-
-    as n	{
-	[
-1
-	,
-22
-]
-    :B
-
-    ,
-
-}	,}
-	,
-    }
-
-")).
-Eval vm_compute in ("<<<M632>>>" ++ check (runes_of_ascii "
+  options{ FixedStringPadFromLeft
+= 
+true 
+; }root 
+packet  P {char[
+    4 ]
+z,
+	}")).
+Eval vm_compute in ("<<<M830>>>" ++ check (runes_of_ascii "packet A {
+  match k as n {
+    [1, ""bb"", 007, ""d"", 5, ""f""] : B,
+    2 : C
+  },
+}")).
+Eval vm_compute in ("<<<M611>>>" ++ check (runes_of_ascii "
 packet
-    asx {match u128 a|s lengthOf
+    asx {match u128 as lengthOf
 {
 //	t
 // `tick` ""quote"" 'q'
-255 : x ,
-    } ,	}")).
-Eval vm_compute in ("<<<M1471>>>" ++ check (runes_of_ascii "
-packet 
-A
-{ 
-Inner
-	{	u8
-	x
-    `a
-b` ,
-    Deep{ 
-u8	y
-`a
-b` , }
-	,
+255 : x")).
+Eval vm_compute in ("<<<M890>>>" ++ check (runes_of_ascii "packet A { Inner { match k as n { [1,22,007,4,5,66,7,8,9,10] : B, }, }, }")).
+Eval vm_compute in ("<<<M1283>>>" ++ check (runes_of_ascii "root packet P {
+    u16 a,
+    u32 Sum @calculatedFrom(""CR\
+C32""),
+}
+")).
+Eval vm_compute in ("<<<M838>>>" ++ check (runes_of_ascii "packet A { Inner { match k as n { [1,22,007,4,5,66] : B, }, }, }")).
+Eval vm_compute in ("<<<M751>>>" ++ check (runes_of_ascii "options @calculatedFrom( repeat } [ @tag( uint32 char[] ] :")).
+Eval vm_compute in ("<<<M1556>>>" ++ check (runes_of_ascii "MetaData M {
+    u8 x `a
+    b`,
+    T t `a
+    b`,
+}")).
+Eval vm_compute in ("<<<M1207>>>" ++ check (runes_of_ascii "packet body { i32 f32a // c
+`{ , }` , } options { }")).
+Eval vm_compute in ("<<<M1100>>>" ++ check (runes_of_ascii "// top
+MetaData // c0
+tag // c1
+{ // c2
+} // c3
+")).
+Eval vm_compute in ("<<<M47>>>" ++ check (runes_of_ascii "MetaData	lengthOf
+{
+Header o `doc`
+    ,}
+")).
+Eval vm_compute in ("<<<M325>>>" ++ check (runes_of_ascii "packet charz { } // packet A { u8 x, }")).
+Eval vm_compute in ("<<<M1628>>>" ++ check (runes_of_ascii "  packet
 
-    },
-
+    A{
 }
 
+    // c" ++ [65279]%N ++ runes_of_ascii "
 ")).
-Eval vm_compute in ("<<<M1955>>>" ++ check (runes_of_ascii "
-
-  packet A  { match k
-	as n
-
-    {  [ 1,""bb""	,
-
-    007
-,
-	""d""	] :B 2 : C}
-,
-
-}")).
-Eval vm_compute in ("<<<M832>>>" ++ check (runes_of_ascii "packet A {
-  match k as n {
-    [""a"", 22, ""c c"", 4, ""e"", 66] : B,
-    2 : C
-  },
-}")).
-Eval vm_compute in ("<<<M1819>>>" ++ check (runes_of_ascii "packet A {
-    match k as n {
-        [""a"", ""bb""] : B,
-        2 : C,
-    },
-}")).
-Eval vm_compute in ("<<<M1463>>>" ++ check (runes_of_ascii "packet
-
-A	{ 
-match k
-	as  n {[ 
-""a""
-,
-""bb""
-    ] : B,	2
-
-    :C } , }
-")).
-Eval vm_compute in ("<<<M794>>>" ++ check (runes_of_ascii "packet A {
-  match k as n {
-    [""a"", 22, ""c c""] : B
-    2 : C
-  },
-}")).
-Eval vm_compute in ("<<<M780>>>" ++ check (runes_of_ascii "packet A {
-  match k as n {
-    [""a"", ""bb""] : B,
-    2 : C
-  },
-}")).
-Eval vm_compute in ("<<<M779>>>" ++ check (runes_of_ascii "packet A {
-  match k as n {
-    [1, 22] : B
-    2 : C
-  },
-}")).
-Eval vm_compute in ("<<<M1573>>>" ++ check (runes_of_ascii "  // top
-
-	packet 	 // c0
-  x	// c1
-
-  {// c2
-	}  // c3
-")).
-Eval vm_compute in ("<<<M1203>>>" ++ check (runes_of_ascii "packet body { // c
-i32 f32a `{ , }` , } options { }")).
-Eval vm_compute in ("<<<M654>>>" ++ check (runes_of_ascii "// @lengthOf(
-packet i8i8 { u128 o , }
-options {")).
-Eval vm_compute in ("<<<M1855>>>" ++ check (runes_of_ascii "  packet A
-
-    {
-	u8 x	,  // c
-  u8
-y,	} ")).
-Eval vm_compute in ("<<<M1827>>>" ++ check (runes_of_ascii "root packet A {
-    u8 x `
-        `,
-}")).
-Eval vm_compute in ("<<<M1436>>>" ++ check (runes_of_ascii "// top
-packet x {
-    // c2
-}// c3")).
-Eval vm_compute in ("<<<M1788>>>" ++ check (runes_of_ascii "packet A {
-    u8 x `
-    x`,
-}")).
-Eval vm_compute in ("<<<M1947>>>" ++ check (runes_of_ascii "MetaData repeatCount {
+Eval vm_compute in ("<<<M36>>>" ++ check (runes_of_ascii "// c
+packet asx  {} /// triple")).
+Eval vm_compute in ("<<<M83>>>" ++ check (runes_of_ascii "
+options{ options1 =	7 ;
 }
-//	t")).
-Eval vm_compute in ("<<<M1593>>>" ++ check (runes_of_ascii "  packet
+")).
+Eval vm_compute in ("<<<M1913>>>" ++ check (runes_of_ascii "
 
-pack
-    {
-}
+  // trailing space 
+")).
+Eval vm_compute in ("<<<M1479>>>" ++ check (runes_of_ascii "// c" ++ [8192]%N ++ runes_of_ascii "
+    packet A {}")).
+Eval vm_compute in ("<<<M1956>>>" ++ check (runes_of_ascii "
+
+  packet 
+o
+	{}
 
 ")).
-Eval vm_compute in ("<<<M1110>>>" ++ check (runes_of_ascii "MetaData tag {
-// c
-}")).
-Eval vm_compute in ("<<<M1133>>>" ++ check (runes_of_ascii "MetaData u
-// c
-{ }")).
-Eval vm_compute in ("<<<M1027>>>" ++ check (runes_of_ascii "// c" ++ [8287]%N ++ runes_of_ascii "
-packet A {
-}")).
-Eval vm_compute in ("<<<M1019>>>" ++ check (runes_of_ascii "packet A {
-}// c" ++ [8239]%N)).
-Eval vm_compute in ("<<<M1734>>>" ++ check (runes_of_ascii "  options {	}
+Eval vm_compute in ("<<<M1039>>>" ++ check (runes_of_ascii "packet A {
+}// c 	")).
+Eval vm_compute in ("<<<M1044>>>" ++ check (runes_of_ascii "packet A {
+}// c" ++ [8203]%N)).
+Eval vm_compute in ("<<<M1749>>>" ++ check (runes_of_ascii "
+/// triple
+ 
 ")).
-Eval vm_compute in ("<<<M1826>>>" ++ check (runes_of_ascii "
-// c" ++ [11]%N)).
-Eval vm_compute in ("<<<M86>>>" ++ check (runes_of_ascii "  ")).
+Eval vm_compute in ("<<<M1060>>>" ++ check (runes_of_ascii "// c x")).
+Eval vm_compute in ("<<<M769>>>" ++ check ([12]%N ++ runes_of_ascii "7" ++ [30]%N)).
